@@ -323,6 +323,7 @@ struct PeerCase {
     std::vector<Msg> from_t;
     size_t chunk; // 0 = all
     std::string name;
+    bool expect_abort{false}; // the stream contains a packet above the contents-length limit
 };
 static void run_peer_case(const PeerCase& pc)
 {
@@ -399,6 +400,10 @@ static void run_peer_case(const PeerCase& pc)
     drain();
     S.stat("peer_cases", 1);
     S.stat("peer_decoys", pc.decoys_before_version.size() + [&] { size_t n = 0; for (auto& x : pc.to_t) n += x.first.size(); return n; }());
+    if (pc.expect_abort) {
+        if (!dead || !got.empty()) S.viol("peer-oversize-decoy-accepted-" + pc.name, "a packet whose contents exceed 1 + 12 + 4,000,000 bytes was not refused (delivered " + u(got.size()) + " messages)");
+        return;
+    }
     if (dead) { S.viol("peer-decoy-" + pc.name, "transport aborted on a valid stream with decoys/garbage " + err); return; }
     if (got.size() != n_expected) { S.viol("peer-decoy-count-" + pc.name, "received " + u(got.size()) + " messages, peer sent " + u(n_expected) + " (decoys must be ignored)"); return; }
     for (size_t i = 0; i < got.size(); i++)
@@ -662,8 +667,14 @@ static int run_all(bool big)
         for (size_t ga : {size_t(0), size_t(1), size_t(4095)})
             for (size_t gb : {size_t(0), size_t(1), size_t(4095)})
                 mk("garbage-" + u(ga) + "-" + u(gb), V2V2, {{"ping", pat(8, 1)}}, {{"pong", pat(8, 2)}}, ga, gb, {0, 1, 64});
-        if (big) mk("big-payload-max-v2", V2V2, {{"block", pat(4000000, 7)}}, {}, 0, 0, {0, 65536});
-        if (big) mk("big-payload-max-v1", V1V1, {{"block", pat(4000000, 7)}}, {}, 0, 0, {0, 65536});
+        // Payload-size limit (MAX_PROTOCOL_MESSAGE_LENGTH = 4,000,000): messages at and just below the limit must be
+        // delivered whatever the encoding of the message type is (short id: 1 byte; long form: 1 + 12 bytes of contents).
+        for (const char* type : {"block", "zzlongtype12", "xunknw", "sendaddrv2"})
+            for (size_t size : {size_t(3999988), size_t(3999989), size_t(4000000)}) {
+                if (!big && std::string(type) == "block" && size != 4000000) continue;
+                mk(std::string("limit-v2-") + type + "-" + u(size), V2V2, {{type, pat(size, 7)}, {"ping", pat(8, 1)}}, {{"verack", {}}}, 0, 1, big ? std::vector<size_t>{65536, 0} : std::vector<size_t>{65536});
+                if (size == 4000000) mk(std::string("limit-v1-") + type + "-" + u(size), V1V1, {{type, pat(size, 7)}, {"ping", pat(8, 1)}}, {{"verack", {}}}, 0, 0, {big ? size_t(65536) : size_t(0)});
+            }
         std::atomic<uint64_t> nb{0};
         vx::par_for(bigs.size(), 1, [&](uint64_t lo, uint64_t hi, unsigned) {
             for (uint64_t i = lo; i < hi; i++) {
@@ -704,6 +715,20 @@ static int run_all(bool big)
                         pc.name = std::string(ti ? "init" : "resp") + "-g" + u(pg) + "-d" + u(before.size()) + "-c" + u(chunk);
                         pcs.push_back(pc);
                     }
+        // decoys at the contents-length limit (1 type byte + 12 bytes long-form type + 4,000,000 payload bytes): the
+        // decoys up to the largest legal size are ignored (what happens above the limit is not part of the property)
+        for (bool ti : {false, true})
+            for (size_t len : {size_t(4000001), size_t(4000002), size_t(4000013)}) {
+                if (!big && ti && (len == 4000001 || len == 4000002)) continue;
+                PeerCase pc;
+                pc.t_initiator = ti; pc.peer_garbage = 1; pc.t_garbage = 0; pc.chunk = 0;
+                if (ti) pc.decoys_before_version = {len};
+                pc.to_t.push_back({ti ? std::vector<size_t>{} : std::vector<size_t>{len}, {"ping", pat(8, 1)}});
+                pc.to_t.push_back({{}, {"verack", {}}});
+                pc.from_t = {{"pong", pat(8, 4)}};
+                pc.name = std::string(ti ? "init" : "resp") + "-decoy" + u(len);
+                pcs.push_back(pc);
+            }
         vx::par_for(pcs.size(), 2, [&](uint64_t lo, uint64_t hi, unsigned) { for (uint64_t i = lo; i < hi; i++) run_peer_case(pcs[i]); });
         for (bool ti : {false, true}) for (size_t chunk : {size_t(0), size_t(1), size_t(100)}) run_overlong_garbage(ti, chunk);
         S.flush();
